@@ -56,10 +56,16 @@ theorem sampling_shares : sharesData fns "seqbag" "sampleSeqBag" = true := by
 The same statements over facts computed with go/types: call edges are the static callees (an interface call reaches
 every implementation in the analysed packages), "fresh" is decided from the allocation site, a write is classified
 by the type of the written location, calls leaving the analysed packages are listed and only the reviewed read-only
-ones are accepted.  The analysis is flow-insensitive (unification of everything a variable is ever assigned), which is
-why `phaser.Phase` (re-assigns its parameter `orfs` to a new bag before adding to it) and `seqbag.LongestORF`
-(`bestseq` is assigned both a row of the input and the reversed clone) are NOT in this list: they stay with the
-syntactic facts above and the run-time check. -/
+ones are accepted.  The analysis is flow-insensitive (unification of everything a variable is ever assigned) with ONE
+flow-sensitive refinement ("fresh window", tools/mutscan): in the statements that follow `x := f(…)` in the same statement
+list, where the result of `f` shares memory with no input / package-level / unknown memory, uses of `x` as receiver or
+plain argument of calls whose summaries keep that input isolated are the fresh allocation (x not captured by a closure, its
+address not taken).  That separates the reversed clone `rev` of `seqbag.LongestORF` from the rows `bestseq` may also hold:
+`seqbag.LongestORF` IS in this list.  `phaser.Phase` is not: it adds the bytes of an input row to a NEW bag
+(`orfs = NewSeqBag(…); orfs.AddSequenceChar(…, orf.SequenceChar(), …); orfs.AutoAlphabet()`); a region is "everything
+reachable", so the new bag and the input's byte arrays are one region and the writes to the bag's own fields count as
+writes to the input (the same holds for `Sample` / `Rarefy`, which build a new bag from the input's rows).  Phase stays
+with the syntactic facts above and the run-time check. -/
 
 /-- queries over the type-checked facts: `("", n)` = every function / method named `n` of the analysed packages
 (all of goalign except `cmd`), `(r, n)` = method `n` of receiver type `r` -/
@@ -79,7 +85,10 @@ def queriesT : List (String × String) :=
     "GetSequenceCharById", "GetSequenceIdByName", "GetSequenceNameById", "NumGaps", "NumGapsFromEnd", "NumGapsFromStart",
     "NumGapsOpenning", "SameSequence", "Sequence", "SequenceChar", "SequenceByName", "SequencesChan", "RandSubAlign",
     "NewPwAligner", "MaxScore", "NbMatches", "NbMisMatches", "NbGaps", "Seq1Ali", "Seq2Ali", "AlignmentStr"].map fun n => ("", n)) ++
-  [("seq", "LongestORF")]
+  [("seq", "LongestORF"), ("seqbag", "LongestORF"), ("seq", "Translate")]
+
+/-- the copy operations of the typed statement: those of `copyOps` and `Sequence.Translate` (a new sequence) -/
+def copyOpsT : List (String × String) := copyOps ++ [("seq", "Translate")]
 
 /-- the fact table is indexed by id (what the closure relies on) and no function stores a reference into a
 package-level variable (so memory reachable from package-level tables is never an input's memory) -/
@@ -95,7 +104,7 @@ theorem queries_pure_typed : ∀ q ∈ queriesT, Gv.Model.MutT.pure Gv.Gen.MutFa
 /-- **The results of the copy-producing operations share no memory with any input**: every value reachable from
 what they return was allocated inside (make / composite literal / append to a fresh slice / result of a function
 whose results are fresh). -/
-theorem copies_own_data_typed : ∀ c ∈ copyOps, Gv.Model.MutT.ownsData Gv.Gen.MutFactsT.fns c.1 c.2 = true := by
+theorem copies_own_data_typed : ∀ c ∈ copyOpsT, Gv.Model.MutT.ownsData Gv.Gen.MutFactsT.fns c.1 c.2 = true := by
   decide +kernel
 
 /-- the sampling operations, documented as sharing, are seen as sharing by the type-checked facts as well -/
